@@ -24,53 +24,16 @@ func src(fset *token.FileSet, n ast.Node) string {
 	return strings.Join(strings.Fields(b.String()), " ")
 }
 
-type facts struct {
-	loops   []string // "cond | call"  for each `for` loop, in order
-	allocs  []string // every make(...) in order: "name := make(...)" with its statement index
-	checks  []string // every if-condition at top level of the function, in order, with statement index
-	globals []string // identifiers used as buffers that are NOT declared in the function
-}
-
+// analyse prints EVERY top-level statement of the function in full (go/printer, whitespace
+// normalised, comments dropped), nested blocks included: the whole body is pinned, so no edit of
+// readFrom / writeTo that changes a statement can leave the facts unchanged. (An earlier version
+// recorded only loop heads, allocations and if-conditions; a review showed three behaviour-changing
+// edits it could not see: a conditional return inside the size check, a mask applied to the decoded
+// size, a mask applied to the length in writeTo.)
 func analyse(fset *token.FileSet, fd *ast.FuncDecl) (lines []string) {
+	lines = append(lines, "sig "+src(fset, fd.Type))
 	for i, st := range fd.Body.List {
-		switch s := st.(type) {
-		case *ast.ForStmt:
-			call := ""
-			ast.Inspect(s.Body, func(n ast.Node) bool {
-				if c, ok := n.(*ast.CallExpr); ok {
-					if sel, ok := c.Fun.(*ast.SelectorExpr); ok && (sel.Sel.Name == "Read" || sel.Sel.Name == "Write") && call == "" {
-						call = src(fset, c)
-					}
-				}
-				return true
-			})
-			adv := ""
-			for _, b := range s.Body.List {
-				if a, ok := b.(*ast.AssignStmt); ok && a.Tok == token.ADD_ASSIGN {
-					adv = src(fset, a)
-				}
-			}
-			lines = append(lines, fmt.Sprintf("%d for %s { %s ; %s }", i, src(fset, s.Cond), call, adv))
-		case *ast.IfStmt:
-			ret := false
-			ast.Inspect(s.Body, func(n ast.Node) bool {
-				if _, ok := n.(*ast.ReturnStmt); ok {
-					ret = true
-				}
-				return true
-			})
-			lines = append(lines, fmt.Sprintf("%d if %s returns=%v", i, src(fset, s.Cond), ret))
-		case *ast.AssignStmt:
-			t := src(fset, s)
-			if strings.Contains(t, "make(") || strings.Contains(t, "append(") || strings.Contains(t, "Uint32(") {
-				lines = append(lines, fmt.Sprintf("%d %s", i, t))
-			}
-		case *ast.ExprStmt:
-			t := src(fset, s)
-			if strings.Contains(t, "PutUint32") {
-				lines = append(lines, fmt.Sprintf("%d %s", i, t))
-			}
-		}
+		lines = append(lines, fmt.Sprintf("%d %s", i, src(fset, st)))
 	}
 	return
 }
